@@ -4,6 +4,9 @@ PATCH=$1; P=$2; T=${3:-quick}
 cd /verif
 git -C /repo diff --quiet || { echo "repo dirty"; exit 2; }
 git -C /repo apply "$PATCH" || { echo "apply failed"; exit 2; }
+# the evidence file describes the unchanged tree: keep it out of the seeded run
+[ -f evidence/$P.json ] && cp evidence/$P.json out/evidence-$P.keep
 timeout 3600 ./check $P --tier $T > /verif/out/seedtest-$P.log 2>&1; RC=$?
+[ -f out/evidence-$P.keep ] && mv out/evidence-$P.keep evidence/$P.json
 git -C /repo checkout -- .
 echo "rc=$RC"; grep -E "VIOLATION|KNOWN-FINDING|TOOL-ERROR|^\[done\]" /verif/out/seedtest-$P.log | head -8
